@@ -100,7 +100,7 @@ impl<'a, T: IteTable<BddPtr<'a>>> BddBuilder<'a> for RobddBuilder<'a, T> {
 //%% @rewrite 1 /unsafe \{\n            \/\/ TODO: Make this safe if possible\n            let tbl = &mut \*self\.compute_table\.as_ptr\(\);\n/ => {\n
 //%% @rewrite 2 /tbl\.get_or_insert\(/ => self.table_get_or_insert(
 //%% @entry
-        proof { axiom_bddptr_eq_equiv(); lemma_neg_shape(self.order_view()); }
+        proof { axiom_bddptr_eq_equiv(); lemma_neg_shape(self.order_view()); lemma_smooth_neg(self.order_view()); }
 //%% end
 
 //%% extract src/builder/bdd/robdd.rs :: impl<'a, T: IteTable<'a, BddPtr<'a>> + Default> BddBuilder<'a> for RobddBuilder<'a, T> :: fn ite_helper
@@ -165,7 +165,7 @@ impl<'a, T: IteTable<BddPtr<'a>>> RobddBuilder<'a, T> {
             // lbl is not after f's top variable
             is_node(f) ==> self.order_view().pos(lbl) <= self.order_view().pos(node_of(f).var),
         ensures
-            forall|env: Env| #[trigger] tr(env) ==> (env(lbl.0) == v ==> ptr_sem(r, env) == ptr_sem(f, env)),
+            forall|env: Env| #[trigger] tr(env) ==> (env(lbl.0) == v ==> ptr_sem(r, env) == ptr_sem(f, env)), // #SEM
             ordered(r, self.order_view()),
             below(r, self.order_view(), self.order_view().pos(lbl)),
             canon(f) ==> canon(r), // #C02
@@ -189,7 +189,7 @@ impl<'a, T: IteTable<BddPtr<'a>>> RobddBuilder<'a, T> {
             cond_cache_ok(*old(cache), self.order_view(), lbl, value),
         ensures
             cond_cache_ok(*final(cache), self.order_view(), lbl, value),
-            forall|env: Env| #[trigger] tr(env) ==> ptr_sem(r, env) == ptr_sem(bdd, upd(env, lbl.0, value)),
+            forall|env: Env| #[trigger] tr(env) ==> ptr_sem(r, env) == ptr_sem(bdd, upd(env, lbl.0, value)), // #SEM
             ordered(r, self.order_view()),
             top(r, self.order_view()) >= top(bdd, self.order_view()),
             canon(bdd) ==> canon(r), // #C02
@@ -213,4 +213,42 @@ impl<'a, T: IteTable<BddPtr<'a>>> RobddBuilder<'a, T> {
             }
         }
 //%% end
+
+//%% extract src/builder/bdd/robdd.rs :: impl<'a, T: IteTable<'a, BddPtr<'a>> + Default> RobddBuilder<'a, T> :: fn smooth_helper
+//%% @props C08
+//%% @attr #[verifier::exec_allows_no_decreases_clause]
+//%% @ret r
+//%% @rewrite ?4 /self\.order\.borrow\(\)/ => self.order_ref()
+//%% @rewrite 1 /\n        debug_assert!\(current <= total\);/ => 
+//%% @spec
+        requires
+            self.binv(), ordered(bdd, self.order_view()),
+            current <= total, total <= self.order_view().n(),
+            // no variable of bdd is above the level smoothing starts at
+            top(bdd, self.order_view()) >= current,
+        ensures
+            forall|env: Env| #[trigger] tr(env) ==> ptr_sem(r, env) == ptr_sem(bdd, env), // #SEM
+            smooth_from(r, current as int, total as int, self.order_view()),
+            ordered(r, self.order_view()),
+            top(r, self.order_view()) >= current,
+//%% @entry
+        proof {
+            reveal(VarOrder::wf);
+            lemma_neg_shape(self.order_view());
+            lemma_smooth_neg(self.order_view());
+        }
+//%% end
+
+//%% extract src/builder/bdd/robdd.rs :: impl<'a, T: IteTable<'a, BddPtr<'a>> + Default> RobddBuilder<'a, T> :: fn smooth
+//%% @props C08
+//%% @ret r
+//%% @spec
+        requires
+            self.binv(), ordered(bdd, self.order_view()), num_vars <= self.order_view().n(),
+        ensures
+            forall|env: Env| #[trigger] tr(env) ==> ptr_sem(r, env) == ptr_sem(bdd, env), // #SEM
+            // every root-to-terminal path tests the variables at levels 0..num_vars exactly once, in order
+            smooth_from(r, 0, num_vars as int, self.order_view()),
+//%% end
 }
+
